@@ -159,6 +159,7 @@ type Interp struct {
 	noPanicDepth int
 	inHarnessTop bool
 	insecureTaint map[int32]bool
+	fallbacks map[string]*Solver
 
 	// stats (per worker, cumulative)
 	Instrs int64
@@ -274,6 +275,21 @@ func (in *Interp) check(extra *Term, wantModel bool) (SatResult, Model) {
 		vars = in.st.Vars
 	}
 	r, m := in.solver.Check(conds, wantModel, vars)
+	if r == Unknown {
+		// portfolio fallback: other back ends, each a persistent process
+		for _, name := range in.ex.Fallbacks {
+			fb := in.fallback(name)
+			if fb == nil {
+				continue
+			}
+			r2, m2 := fb.Check(conds, wantModel, vars)
+			if r2 != Unknown {
+				in.ex.noteFallback(name)
+				r, m = r2, m2
+				break
+			}
+		}
+	}
 	if r == Unsat && in.ex != nil && in.ex.xcheck != "" {
 		r2 := in.ex.crossCheck(in, conds)
 		if r2 == Sat {
@@ -282,6 +298,34 @@ func (in *Interp) check(extra *Term, wantModel bool) (SatResult, Model) {
 		}
 	}
 	return r, m
+}
+
+func (in *Interp) fallback(name string) *Solver {
+	if in.fallbacks == nil {
+		in.fallbacks = map[string]*Solver{}
+	}
+	if s, ok := in.fallbacks[name]; ok && !s.dead {
+		return s
+	}
+	s, err := NewSolver(name, in.st, in.ex.FallbackTimeoutMs)
+	if err != nil {
+		return nil
+	}
+	in.fallbacks[name] = s
+	return s
+}
+
+func (in *Interp) closeFallbacks() {
+	for _, s := range in.fallbacks {
+		in.ex.mu.Lock()
+		in.ex.Queries += s.Queries
+		in.ex.SolverTime += s.Time
+		in.ex.NSat += s.NSat
+		in.ex.NUnsat += s.NUnsat
+		in.ex.mu.Unlock()
+		s.Close()
+	}
+	in.fallbacks = nil
 }
 
 // decide picks one of alts (exhaustive if exh) and schedules the others.
